@@ -1,55 +1,48 @@
-# Registry of checks: property id -> how to build and run its harness.
-RETRY_REWRITE = {
-    "name": "das-retryJob-map-order",
-    "file": "das/state.go",
-    "find": r"for h, attempt := range s\.failed \{",
-    "repl": "for h, attempt := range vRetryKeys(s.failed) {",
-}
+"""Registry of checks, assembled from harness/*/check.json.
 
-JOBCTX_REWRITE = {
-    "name": "das-worker-jobctx",
-    "file": "das/worker.go",
-    "find": r"w\.sampleFn\(ctx, h\)",
-    "repl": "w.sampleFn(vJobCtx(ctx, w.state.job), h)",
-    "optional": True,
+Each harness directory holds one check.json:
+{
+  "checks": {
+    "<ID>": {
+      "pkg": "das",                 # package directory inside /repo the harness files are overlaid into
+      "pkgname": "das",             # its package clause
+      "test": "TestVerifC04",       # test function to run
+      "goflags": [],                # extra go test flags (e.g. ["-race"])
+      "env": {},                    # extra environment
+      "instrument": [ {"dir": "store", "what": ["sync","sync/atomic","os"], "deny": ["codec.go"]} ],
+      "rewrites":   [ {"name":..., "file":..., "find": regex, "repl":..., "optional": bool} ],
+      "meta": { "engine":..., "category":..., "design_ref":..., "technique":..., "text":..., "note":... }
+    }
+  }
 }
+The harness directory name is implied by where check.json lives.
+"""
+import glob, json, os
 
-CHECKS = {
-    "C04": {"pkg": "das", "pkgname": "das", "harness": "das", "test": "TestVerifC04", "rewrites": [RETRY_REWRITE, JOBCTX_REWRITE]},
-    "C13": {"pkg": "das", "pkgname": "das", "harness": "das", "test": "TestVerifC13", "rewrites": [RETRY_REWRITE, JOBCTX_REWRITE]},
-}
+VERIF = os.path.dirname(os.path.dirname(os.path.abspath(__file__)))
 
-ENGINES = [
-    {"name": "vx", "path": "engine/vx", "serves_properties": ["C04", "C13"],
-     "kind_free_text": "hand-written explorer: explicit-state BFS over event histories of the real object (replay on a fresh "
-                       "instance per transition, canonical fingerprints, bounded-liveness drain from every state) and "
-                       "deviation-bounded DFS over choice sequences; runs inside testing/synctest bubbles with a fake clock"},
-]
+CHECKS = {}
+META = {}
+for path in sorted(glob.glob(os.path.join(VERIF, "harness", "*", "check.json"))):
+    hname = os.path.basename(os.path.dirname(path))
+    doc = json.load(open(path))
+    for cid, cfg in doc["checks"].items():
+        cfg = dict(cfg)
+        cfg["harness"] = hname
+        if "meta" in cfg:
+            META[cid] = cfg.pop("meta")
+        CHECKS[cid] = cfg
+
+ENGINES = json.load(open(os.path.join(VERIF, "engine", "engines.json")))
+for e in ENGINES:
+    e["serves_properties"] = sorted(c for c in META if META[c].get("engine") == e["name"] or e["name"] in META[c].get("engines", []))
 
 ALL_IDS = ["C%02d" % i for i in range(1, 21)]
-
-META = {
-    "C04": {
-        "engine": "vx", "category": "model_checking", "design_ref": "DESIGN.md §4 C04, §3.2",
-        "technique": "explicit-state BFS over environment-event histories of the real das.DASer in a synctest bubble; invariant on every state and at every checkpoint write",
-        "text": "Every reachable state (up to the stated event depth, for each listed sampling range / concurrency limit / initial head) of the real "
-                "DASer driven one environment event at a time (head announcements, per-call sampler outcomes, checkpoint ticks, back-off expiry, "
-                "stop, crash, restart) satisfies 'every height in [tail, head] is sampled, in a worker, queued or failed', and every checkpoint "
-                "written covers every unsampled height. This is a statement about all schedules/crash points within the bound, which scripted tests cannot give.",
-        "note": "Trusted: testing/synctest quiescence, the fakes (availability, subscriber, header store, freezeable map datastore), the two overlay "
-                "rewrites (retryJob map order, job tag on the sampler context). Bounded: heights <= 7, depth <= 9 events.",
-    },
-    "C13": {
-        "engine": "vx", "category": "model_checking", "design_ref": "DESIGN.md §4 C13, §3.2",
-        "technique": "explicit-state BFS over event histories of the real das.DASer plus a bounded-liveness drain from every state",
-        "text": "In every reachable state the worker bounds, the CatchUpDone/WaitCatchUp equivalence, statistics-vs-ground-truth agreement, "
-                "back-off respected by retry jobs and monotone attempt counts hold; from every reachable state the fair continuation in which "
-                "sampling succeeds reaches CatchUpDone with every height sampled within a bounded number of rounds.",
-        "note": "Same harness and trusted base as C04. Liveness is bounded liveness for one fair continuation (every further sample succeeds).",
-    },
-}
-
+_na = {}
+_na_path = os.path.join(VERIF, "not_applicable.json")
+if os.path.exists(_na_path):
+    _na = json.load(open(_na_path))
 NOT_APPLICABLE = [
-    {"property_id": i, "reason": "check not built yet (work in progress, see DESIGN.md §7 build order)"}
+    {"property_id": i, "reason": _na.get(i, "check not built yet (work in progress, see DESIGN.md §7 build order)")}
     for i in ALL_IDS if i not in META
 ]
